@@ -508,8 +508,9 @@ namespace occa {
 
     j.clear();
     j.asObject();
+    // Only the builtin itself is a builtin, not a custom type with the same name
     const dtype_t &dtype = dtype_t::getBuiltin(name_);
-    if (&dtype != &dtype::none) {
+    if ((&dtype == this) && (&dtype != &dtype::none)) {
       j["type"] = "builtin";
       j["name"] = name_;
     } else {
